@@ -185,6 +185,49 @@ def opsC10 : List (String × Handler) := [
       let flat := vals.flatMap fun v => v.toList
       return s!"{cc.length} {fmtNats rc} {fmtNats cc} {fmt flat}".trimAscii.toString
     | _ => throw "arity"),
+  -- c10.pinvsvd m n r hasAtol atol hasRtol rtol eps A(m*n) U(m*r) sigma(r) V(n*r) b(m)
+  --   -> cut x(n) |U^T U - 1| |V^T V - 1| |A - U S V^T|      (PINV.forward with the kernel unfolded to an SVD)
+  ("c10.pinvsvd", fun ts => do
+    match ts with
+    | m :: n :: r :: ha :: atol :: hr :: rtol :: eps :: rest =>
+      let m ← nat m; let n ← nat n; let r ← nat r; let ha ← nat ha; let hr ← nat hr
+      let atol ← num atol; let rtol ← num rtol; let eps ← num eps
+      let (A, rest) ← takeNums (m * n) rest
+      let (U, rest) ← takeNums (m * r) rest
+      let (sg, rest) ← takeNums r rest
+      let (V, rest) ← takeNums (n * r) rest
+      let (b, _) ← takeNums m rest
+      let A := matOf n A; let U := matOf r U; let V := matOf r V; let sg := vecOf sg
+      let ao := if ha == 1 then some atol else none
+      let ro := if hr == 1 then some rtol else none
+      let cut := pinvCutoff ao ro m n eps (sg 0)
+      let x := pinvForwardSvd m n r U V sg ao ro eps (vecOf b)
+      let one : Nat → Nat → BigF := fun i j => if i = j then BigF.one else BigF.zero
+      let utu := (tab2 r r (matMul m (transpose U) U)).get
+      let vtv := (tab2 r r (matMul n (transpose V) V)).get
+      let us := (tab2 m r fun i t => U i t * sg t).get
+      let rec_ := (tab2 m n (matMul r us (transpose V))).get
+      return fmt ([cut] ++ tabList n x ++ [frob r r (fun i j => utu i j - one i j), frob r r (fun i j => vtv i j - one i j),
+                                           frob m n (fun i j => A i j - rec_ i j)])
+    | _ => throw "arity"),
+  -- c10.cgentry ndimA ndimB -> 1 (unsqueezed) | 0 | err assert:ndim
+  ("c10.cgentry", fun ts => do
+    match ts with
+    | [a, b] =>
+      let a ← nat a; let b ← nat b
+      match cgEntry a b with
+      | .ok u => return b2n u
+      | .error e => throw e
+    | _ => throw "arity"),
+  -- c10.bsrguard m n n' p dm dn dn' dp -> sm sn sp | err kind
+  ("c10.bsrguard", fun ts => do
+    let xs ← nats ts
+    match xs with
+    | [m, n, n', p, dm, dn, dn', dp] =>
+      match bsrBscGuard m n n' p dm dn dn' dp with
+      | .ok (a, b, c) => return fmtNats [a, b, c]
+      | .error e => throw e
+    | _ => throw "arity"),
   -- c10.dispatch l1 l2 -> route finalRoute
   ("c10.dispatch", fun ts => do
     match ts with
